@@ -16,7 +16,7 @@ def plan(tier: str, seed: int) -> Plan:
     for ms in ([1, 2, 3] if thorough else [1, 2]):
         conds.append(Condition(f"reach-text:len{ms}", "reach", H, "reach_text", {"maxs": ms}, T * 2, required=(ms == 1),
                                bounds=f"member name: symbolic str len<={ms}; 4 document shapes; symbolic leaf; escape decoding off"))
-    sg = 21 if thorough else 13
+    sg = 22 if thorough else 13
     for ue in (False, True):
         conds.append(Condition(f"reach-sigma:ue={ue}", "reach", H, "reach_sigma", {"maxs": 3 if thorough else 2, "unicode_escape": ue, "sigma": sg}, T * 2,
                                bounds=f"member names of <={3 if thorough else 2} characters over the first {sg} of Sigma (enumeration), 4 shapes"))
